@@ -386,7 +386,7 @@ pub fn c10_blackbox(run: &mut Run, lost: &[Pos]) {
     let starts = crate::workload::start_positions(seed, 40).unwrap_or_default();
     // part a on the hooked binary: several position commands per session, each record must
     // describe that command alone
-    let sessions = tier.pick(16usize, 200);
+    let sessions = tier.pick(48usize, 200);
     let res = run_parallel(16, sessions, |sid| {
         let mut acc = Acc::new();
         let mut rng = Rng::stream(seed, 0xC10_0000 + sid as u64);
@@ -455,7 +455,7 @@ pub fn c10_blackbox(run: &mut Run, lost: &[Pos]) {
         run.acc.merge(a, &[]);
     }
     // part b on the plain binary
-    let n_b = tier.pick(24usize, 240);
+    let n_b = tier.pick(48usize, 240);
     let res = run_parallel(8, n_b, |j| {
         let mut acc = Acc::new();
         let mut rng = Rng::stream(seed, 0xC10_8000 + j as u64);
@@ -517,7 +517,7 @@ pub fn c10_blackbox(run: &mut Run, lost: &[Pos]) {
     // and a single legal reply; the engine plays it, and the second `go` (no new `position`) is
     // asked of the lost side, which can step into a position that occurred twice in the game the
     // `position` command described. The record given by that command is still the game's record.
-    let n_c = tier.pick(24usize, 240);
+    let n_c = tier.pick(64usize, 240);
     let res = run_parallel(8, n_c, |j| {
         let mut acc = Acc::new();
         let mut rng = Rng::stream(seed, 0xC10_C000 + j as u64);
